@@ -38,6 +38,32 @@ def run(ctx):
     from sa import eff
     eff.check_fwd(ctx, [("edgegraph.traversal.breadthfirst.bft", "ibft", {}), ("edgegraph.traversal.depthfirst.dft_recursive", "idft_recursive", {}),
                         ("edgegraph.traversal.depthfirst.dft_iterative", "idft_iterative", {}), ("edgegraph.traversal.depthfirst.idft_recursive", "_dft_recur", {"start": "v"})])
+    steps(ctx, res)
     common.vacuity(res, "REACH-SWEEP", 3000)
     res.analysed = common.analysed(ctx, [f"{m}.{g}" for m, l, g, s in trav.TRAVS.values()] + [f"{m}.{l}" for m, l, g, s in trav.TRAVS.values()])
     res.explanation = "Bounded exhaustive abstract evaluation of the whole traversal functions (small-scope sweep); every mismatch is a concrete witness graph."
+
+
+def steps(ctx, res):
+    """Unbounded argument: prologue + one loop iteration / one recursive activation equal the schema step (rules/travstep.py)."""
+    from rules import travstep
+    try:
+        sr = travstep.run_steps(ctx)
+    except Exception as e:  # noqa: BLE001 - the step argument is optional; the sweep still decides
+        res.note(f"step-transformer argument could not be evaluated ({type(e).__name__}: {e}); verdict rests on the sweep")
+        return
+    res.rule("SCHEMA-STEP", sr.n)
+    res.obligations += sr.n
+    res.evaluations += sr.n
+    res.discharged += sr.n - len(sr.mismatches) - len(sr.undecided)
+    res.extra["schema_step"] = {"obligations": sr.n, "mismatches": len(sr.mismatches), "undecided": len(sr.undecided), "proved": sr.proved}
+    if sr.proved and not res.findings and not res.undecided:
+        res.bounded_only = False
+        res.level = "proof"
+        res.explanation = ("Every traversal's prologue and single step (loop iteration / recursive activation, from an arbitrary abstract worklist state with opaque segments) equals the step of "
+                           "its search schema, which by the loop-invariant argument of DESIGN.md A.4 gives the statement for graphs of every size; the small-scope sweep found no mismatch either.")
+    else:
+        for m in sr.mismatches[:3]:
+            res.note("step differs from the search schema (not a violation by itself; the sweep decides): " + m[:300])
+        for m in sr.undecided[:3]:
+            res.note("step not decidable (verdict rests on the sweep): " + m[:300])
